@@ -95,6 +95,16 @@ CLAIMED = {
          "Seven scenarios (2-3 sessions x 2-3 requests; hub node entered through CATCH, MOVE and INCMP; shared code slices with spare capacity and exact-capacity control; same sink browsed by both; one ending while the other browses; long-lived, persisted-mem and persisted-fs on one directory) are explored under every schedule with at most 2 (quick) / 3 (thorough) pre-emptions: each session's transcript must equal its solo transcript, the shared application data must be unchanged up to the capacity of every slice, and package-level state must be unchanged.",
          "Trusted: the cooperative scheduler sees interleavings at its yield points only; races confined to one instruction and memory-model effects are left to the separate free-running pass under the race detector (30 / 300 repetitions), which samples and is reported as such.",
          "DESIGN.md §4 C19"),
+ "C10": ("model_checking",
+         "exhaustive enumeration of operation sequences over a 25-letter alphabet applied in lockstep to every backend and to a reference keyed map; explicit-state search over reference states with raw-backend-state identity check for deeper sequences; exhaustive small-set sweep of Dump",
+         "Part A: every sequence of 4 (quick) / 5 (thorough) operations (SetPrefix x5, SetSession x3, SetLanguage x3, SetLock/seal x3, Put x6, Get x3, Dump x2 on fs) on mem, fs, fs-binary and Postgres-over-fake with read-back through a second handle; Part B: breadth-first search over the reference states to depth 7 / 8 with every operation tried from each state's canonical path (pruning justified by comparing the backend's raw state, never used as a verdict); Part C: every set of up to 3 stored entries x every session x every prefix listed on both fs modes.",
+         "Trusted: ref.KV (reference keyed map with language fallback, lock mask and seal). Dump is constrained on fs for STATE/USERDATA only. Open known findings: concatenated session key (listing under the empty session), legacy file name of resource-type keys.",
+         "DESIGN.md §4 C10"),
+ "C11": ("model_checking",
+         "exhaustive enumeration of a universe of (type, session, key) triples over an adversarial character set: write-all/read-all, per-session and per-type isolation passes, and all short write/read interleavings over structurally suspected collision classes, on every backend",
+         "Universe of 2.7 k (quick) / 12.5 k (thorough) triples (separators, type-prefix characters, language-like suffixes, empty session, binary bytes): every triple is written a unique value and read back, every session's data is probed from every other session (Get and, on fs, Dump), every type from every other type; structurally suspected collisions (equal concatenation, equal primary/legacy/cleaned file names) are run through all write/read sequences of length 3 / 4 with near-miss neighbours. A read may only return what was written to the same triple.",
+         "Trusted: the reference map keyed by the triple itself. Refused Puts drop the triple (\"that the backend accepts\"). Open known findings with specific predicates: session||'.'||key concatenation collision (all backends), legacy-name collision of resource types on fs.",
+         "DESIGN.md §4 C11"),
 }
 
 NOT_YET = {}
